@@ -1,6 +1,7 @@
 package harness
 
 import (
+	"time"
 	"context"
 	"errors"
 	"fmt"
@@ -93,6 +94,14 @@ func (s *simStore) begin(ctx context.Context, method, desc string, stream, write
 			s.cancelNow(rec)
 			f = nil
 		}
+	}
+	if f != nil && f.Mode == "slow" {
+		// a slow (not failing) driver call: it takes J+1 seconds of simulated time before it starts to answer
+		s.mu.Lock()
+		s.fired["slow_call_simulated_seconds"] += f.J + 1
+		s.mu.Unlock()
+		time.Sleep(time.Duration(f.J+1) * time.Second)
+		f = nil
 	}
 	if err := s.ctxErr(ctx, rec); err != nil {
 		return rec, nil, err
@@ -281,6 +290,13 @@ func deliver[T any](ctx context.Context, s *simStore, rec *callRec, f *FaultSpec
 		}
 		if f != nil && f.Mode == "cancel" && i == f.J {
 			s.cancelNow(rec)
+		}
+		if f != nil && f.Mode == "slowmid" && i <= 4 {
+			// a driver that streams slowly: a simulated second before each of the first elements
+			s.mu.Lock()
+			s.fired["slow_stream_simulated_seconds"]++
+			s.mu.Unlock()
+			time.Sleep(time.Second)
 		}
 		if err := s.ctxErr(ctx, rec); err != nil {
 			return err
